@@ -96,6 +96,9 @@ def specs(r):
         for k, v in (ob.get("jobs") or {}).items():
             qs.append((f"spec eq {v[3]} {raised.get(k, 0)}", {"what": "failed_counts_raises", "key": k, "op": i}))
             qs.append((f"spec le {v[3]} {v[2]}", {"what": "failed_le_attempts", "key": k, "op": i}))
+        for (f_, a_) in ob.get("handler_saw", []):
+            # ... also at the moment the failure is reported (a handler looking at the job it is told about)
+            qs.append((f"spec le {f_} {a_}", {"what": "failed_le_attempts while the failure is being logged", "op": i, "failed": f_, "attempts": a_}))
         if "logs" in ob:
             qs.append((f"spec eq {ob['logs']} {total}", {"what": "one_record_each", "op": i}))
     return qs
